@@ -49,10 +49,43 @@ def ddmin(chunks, fails, budget):
     return chunks
 
 
+def strip_comments(src, keep_lines=True):
+    """all comments replaced by their line breaks (or nothing) and a space"""
+    ps = pieces(src)
+    if ps is None:
+        return src
+    out = []
+    for p in ps:
+        if p.startswith("--"):
+            out.append(" " + ("\n" * p.count("\n") if keep_lines else ""))
+        else:
+            out.append(p)
+    return "".join(out)
+
+
+def squeeze_spaces(src):
+    """every white-space run reduced to its line breaks, or one space"""
+    ps = pieces(src)
+    if ps is None:
+        return src
+    out = []
+    for p in ps:
+        if p.strip() == "" and p != "":
+            out.append("\n" * p.count("\n") if "\n" in p else " ")
+        else:
+            out.append(p)
+    return "".join(out)
+
+
 def shrink(src, fails, max_tests=400):
     budget = [max_tests]
     if not fails(src):
         return src
+    for f in (strip_comments, squeeze_spaces):
+        cand = f(src)
+        budget[0] -= 1
+        if cand != src and fails(cand):
+            src = cand
     lines = src.splitlines(keepends=True)
     lines = ddmin(lines, fails, budget)
     cur = "".join(lines)
